@@ -29,6 +29,8 @@ type Case struct {
 	Schedule []int       `json:"schedule"` // choice among the parked operations at every scheduling step
 	// SameID: the competing TransactionSet re-uses the transaction id of T (clients may recycle ids)
 	SameID bool `json:"same_id,omitempty"`
+	// RecycledID: before T a transaction with the id T is going to use was applied and cancelled (clients may recycle ids)
+	RecycledID bool `json:"recycled_id,omitempty"`
 	// Impatient: instead of a schedule, a slow device and a client whose first call gives up early (impatient_test.go)
 	Impatient *Impatient `json:"impatient,omitempty"`
 }
@@ -45,6 +47,7 @@ func gen(t *rapid.T) *Case {
 	sort.Strings(c.Ops)
 	c.Schedule = rapid.SliceOfN(rapid.IntRange(0, 5), 12, 12).Draw(t, "schedule")
 	c.SameID = rapid.IntRange(0, 2).Draw(t, "competitor-reuses-id") == 0
+	c.RecycledID = rapid.IntRange(0, 3).Draw(t, "recycled-id") == 0
 	if rapid.IntRange(0, 7).Draw(t, "impatient-client") == 3 {
 		c.Impatient = &Impatient{First: rapid.SampledFrom([]string{"cancel", "cancel", "confirm"}).Draw(t, "impatient-first"),
 			CtxMs: rapid.SampledFrom([]int{1, 10, 40}).Draw(t, "impatient-ctx"), DeviceMs: rapid.SampledFrom([]int{80, 150}).Draw(t, "device-ms")}
@@ -145,6 +148,21 @@ func Exec(c *Case) (nontrivial bool, labels []string, fail *vlib.Failure) {
 	s.mu.Lock()
 	s.active["expiry"] = true
 	s.mu.Unlock()
+	if c.RecycledID {
+		// an earlier transaction under the id T will use: applied, then cancelled
+		h.NextTxID = "recycled"
+		if pre := h.SubmitStep(c.T); pre.OK {
+			if err := h.DS.TransactionCancel(ctx, pre.TxID); err != nil {
+				h.FreeSlot(pre.TxID)
+				st.Discard("recycled-prefix-cancel-refused")
+				return false, []string{"discard"}, nil
+			}
+			lab["transaction-id-recycled-after-cancel"] = true
+		} else {
+			h.FreeSlot(pre.TxID)
+		}
+		h.NextTxID = "recycled"
+	}
 	preT := vlib.NormPresence(h.Dev.Snapshot())
 	res := h.SubmitStep(c.T)
 	if !res.OK {
